@@ -9,8 +9,8 @@
 
 struct RedirSpec {
   int type = 0;    // REPROC_REDIRECT value (0 = default)
-  int handle = 0;  // 0 unset, 1 user pipe (proper end), 2 user file descriptor, 3 user /dev/null descriptor
-  int file = 0;    // 0 unset, 1 FILE* over a user file descriptor, 2 FILE* without descriptor
+  int handle = 0;  // 0 unset, 1 user pipe (proper end), 2 user file descriptor, 3 user /dev/null descriptor, 4 the caller's descriptor 1, 5 the caller's descriptor 2
+  int file = 0;    // 0 unset, 1 FILE* over a user file descriptor, 2 FILE* without descriptor, 3 stdout, 4 stderr, 5 stdin
   int path = 0;    // 0 unset, 1 creatable path, 2 missing directory, 3 unwritable directory, 4 existing file, 5 /dev/null
 };
 
